@@ -17,8 +17,11 @@ EXPLANATION = (
     "implicit point whenever the restart flag holds, the flag is forced by |future_dt - prev_dt| > 0.01*curr_dt and by "
     "running out of future samples, and otherwise is the carried flag; (3) every step stores out[i-1] + curr_dt * "
     "sum_j stencil[j-jstart]*signal[i+j] over j in [-(width-n_implicit), n_implicit), a degree-1 form in the signal. "
-    "Not decided: exactness of the stencil weights in rational arithmetic and cubic exactness of a step (they require "
-    "computing the weight table, i.e. executing integration_stencil)."
+    "(4) a jittered step restarts the count of constant steps and the high-order stencil returns only when the count reaches "
+    "its width; (5) integration_stencil / evaluate_polynomial / integrated_lagrange_base_polynomial_coef / "
+    "lagrange_base_polynomial_coef are, as loop summaries, the Lagrange construction, and the integration interval [m-1, m] is "
+    "the pair of nodes integrate() aligns with signal[i-1], signal[i]. Exactness and sum-to-one follow from that construction "
+    "mathematically; no weight table is computed (that would be executing the code)."
 )
 
 
